@@ -20,6 +20,7 @@ import (
 	"time"
 	"unsafe"
 
+	"github.com/maypok86/otter/v2/internal/deque/queue"
 	"github.com/maypok86/otter/v2/internal/generated/node"
 	"github.com/maypok86/otter/v2/internal/verifkit"
 )
@@ -39,6 +40,8 @@ type wrScenario struct {
 	Points   string  `json:"points"`   // all | pub
 	InvAll   int     `json:"invall"`   // InvalidateAll calls by an extra goroutine
 	Reads    int     `json:"reads"`    // 1 = read-heavy mix (stale read-buffer entries for replaced nodes)
+	SmallBuf int     `json:"smallbuf"` // 1 = write buffer of 8 events and a foreign holder of the eviction mutex at the start of the race:
+	                                   // writers overflow the buffer and fall back to running maintenance themselves (afterWriteTask)
 	Stale    int     `json:"stale"`    // 1 = after the race, one reader per key is stalled between its table lookup and its
 	                                   // read-buffer append across a rewrite of the key that maintenance has already applied
 }
@@ -261,6 +264,17 @@ func runWRScenario(sc wrScenario) (a wrAudit) {
 	}
 	c := Must(o)
 	defer c.StopAllGoroutines()
+	if sc.SmallBuf == 1 && c.cache.withMaintenance {
+		c.cache.writeBuffer = queue.NewMPSC[task[int, int]](4, 8)
+		c.cache.evictionMutex.Lock()
+		go func() {
+			for i := 0; i < 40 && c.cache.writeBuffer.Size() < 8; i++ {
+				time.Sleep(500 * time.Microsecond)
+			}
+			time.Sleep(time.Millisecond)
+			c.cache.evictionMutex.Unlock()
+		}()
+	}
 	var libPanic atomic.Value
 	if sc.SyncExec != 1 {
 		// the default executor (go fn()), except that a panic of the code under test is an observation, not a crash of
@@ -498,6 +512,14 @@ func runWRPost(sc wrScenario, c *Cache[int, int], a *wrAudit, mu *sync.Mutex, re
 			c.CleanUp()
 			c.SetMaximum(1)
 		}
+	}
+	if sc.SmallBuf == 1 && sc.Size != "none" && sc.Seed%4 != 3 {
+		// lower the maximum after the race: an entry the policy never heard of cannot be chosen as a victim
+		for i := 0; i < 200 && c.cache.drainStatus.Load() != idle; i++ {
+			time.Sleep(time.Millisecond)
+		}
+		c.CleanUp()
+		c.SetMaximum(1)
 	}
 	// quiescence: every call has returned; wait for the goroutines the cache started, then let pending maintenance run
 	deadline := time.Now().Add(500 * time.Millisecond)
